@@ -44,7 +44,11 @@ def gen_domain(rng, n_actions=4, with_forall=True, with_numeric=True, noise=Fals
             acts.append(("addn", [["?x", "t2"], ["?y", narrow]], L(), L(S("and"), L(S("q"), S("?x"), S("?y")))))
             acts.append(("delb", [["?x", "t1"], ["?y", "object"]], L(S("and"), L(S("q"), S("?x"), S("?y"))),
                          L(S("and"), L(S("not"), L(S("q"), S("?x"), S("?y"))))))
-    return gen_core.domain_tree(acts), acts
+    types = None
+    if rng.random() < 0.4:      # type declarations in another order (children before their parents)
+        types = list(gen_core.TYPES)
+        rng.shuffle(types)
+    return gen_core.domain_tree(acts, types=types), acts
 
 
 def gen_problem_tree(rng, objs, name="hp"):
@@ -59,6 +63,9 @@ def gen_case(seed, cid, n_ops=14, **kw):
     rng = random.Random(seed * 7919 + cid)
     dom, acts = gen_domain(rng, n_actions=rng.choice([3, 4, 5]) if not kw.get("noise") else 2, **kw)
     objs = list(gen_core.OBJS) if rng.random() < 0.7 else gen_core.OBJS[:3]
-    return {"id": cid, "dom": dom, "prob": gen_problem_tree(rng, objs), "objs": objs,
+    # a second problem of the same domain over another object set (one exporter serves both)
+    objs2 = [o for o in objs if o[0] != "o2"] + [["o5", "t2"], ["o6", "t1"]]
+    prob = gen_problem_tree(rng, objs)
+    return {"id": cid, "dom": dom, "prob": prob, "objs": objs, "prob2": gen_problem_tree(rng, objs2, name="hp2"), "objs2": objs2,
             "acts": [[n, p] for n, p, _, _ in acts], "seed": rng.randrange(1 << 30), "n_ops": n_ops,
             "layout": rng.randrange(1 << 30) if rng.random() < 0.3 else None}
